@@ -240,6 +240,10 @@ class CallMixin:
             if k == "bound":
                 return self.call_method(fn.self_, fn.name, args, kwargs, st, node)
             if k == "unbound":
+                m0 = self.find_method(fn.extra, fn.name)
+                if m0 and m0[0] == "src" and self._is_classmethod(m0[2]):
+                    # Class.method(...): the class itself is the first argument
+                    return self.call_loky_func(f"{m0[1]}:{m0[4]}", VClass(fn.extra), args, kwargs, st, node)
                 if not args:
                     m = self.find_method(fn.extra, fn.name)
                     if m and m[0] == "src" and self._is_static(m[2]):
@@ -319,13 +323,18 @@ class CallMixin:
             raise EngineError("super() outside a schema-class method")
         bases = self.schema.mro(cls)[1:]
         out = []
-        arg_nodes = [a for a in node.args]
+        arg_nodes = [a.value if isinstance(a, ast.Starred) else a for a in node.args]
         kw_nodes = [k.value for k in node.keywords]
         for kind, s, vs in self.ev_list(arg_nodes + kw_nodes, st):
             if kind == "exc":
                 out.append((kind, s, vs))
                 continue
-            args = vs[:len(arg_nodes)]
+            args = []
+            for a_, v_ in zip(node.args, vs):
+                if isinstance(a_, ast.Starred):
+                    args += self.expand_star(v_, s)
+                else:
+                    args.append(v_)
             kwargs = {k.arg: v for k, v in zip(node.keywords, vs[len(arg_nodes):])}
             if any(k.arg is None for k in node.keywords):
                 kwargs = {}
@@ -622,6 +631,10 @@ class CallMixin:
                 return VStr(f(v.t))
             if isinstance(T, (ty.Ref, ty.Map, ty.Lst)):
                 return VRef(v.t, T.cls, T if isinstance(T, (ty.Map, ty.Lst)) else None)
+            if isinstance(T, ty.Opt) and isinstance(T.inner, ty._Real):
+                return VOpt(v.t == 0, VReal(z3.Function("unbox_real", ty.IntS, ty.RealS)(v.t)))
+            if isinstance(T, ty.Opt) and isinstance(T.inner, ty._Int):
+                return VOpt(v.t == 0, VInt(_unbox_int(v.t)))
         return v
 
     def apply_contract(self, c, self_v, args, kwargs, st, node):
@@ -633,7 +646,10 @@ class CallMixin:
         if impl is not None:
             for ck, hook in getattr(self, "at_call_hooks", []):
                 if ck == c.key:
-                    hook(self, None, st, node)
+                    penv = {str(i_): a_ for i_, a_ in enumerate(args) if isinstance(a_, V)}
+                    if self_v is not None:
+                        penv["self"] = self_v
+                    hook(self, penv, st, node)
             return impl(self, st, self_v, args, kwargs, node)
         env = self.bind_contract_args(c, self_v, args, kwargs, st)
         for ck, hook in getattr(self, "at_call_hooks", []):
@@ -767,6 +783,9 @@ class CallMixin:
                         parts.append(txt)
             except SyntaxError:
                 parts = []
+            if len(parts) > 1:
+                # one expression again: `and` stays lazy over the kept conjuncts (an earlier one may guard the kind of a later one)
+                parts = [" and ".join(f"({t})" for t in parts)]
         self._parts_cache[expr] = parts
         return parts
 
@@ -784,42 +803,72 @@ class CallMixin:
             nxt = fresh_const("alloc", ty.IntS)
             st.assume(nxt >= st.alloc)
             st.alloc = nxt
-        for path in (c.modifies_ or []):
-            self.havoc_path(path, st, env)
+        acts = [self.resolve_havoc(path, st, env) for path in (c.modifies_ or [])]
+        for act in acts:
+            act()
 
     def havoc_path(self, path, st, env):
+        self.resolve_havoc(path, st, env)()
+
+    def resolve_havoc(self, path, st, env):
+        """Resolve the owner of a modifies path in the *current* state and return the action that havocs it (so that all owners
+        of one modifies clause are resolved in the pre-state, before any of them is havocked)."""
         path = path.strip()
         if path.startswith("G."):
             name = path[2:]
             d = self.schema.ghosts[name]
-            st.ghost_set(name, fresh_const(f"hG_{name}", d.sort))
-            return
+            return lambda: st.ghost_set(name, fresh_const(f"hG_{name}", d.sort))
         if path.startswith("glob:"):
             mod, name = path[5:].rsplit(".", 1)
             d = self.schema.globs[(mod, name)]
-            vs = self.fresh_of_type(st, d.T if not isinstance(d.T, ty.Union) else ty.Obj, f"hglob_{name}")
-            st.globs[(mod, name)] = fresh_value(d.T, f"hglob_{name}") if not isinstance(d.T, ty.Union) else VObj(fresh_const("hglob", ty.IntS))
-            return
+
+            def act_glob():
+                st.globs[(mod, name)] = fresh_value(d.T, f"hglob_{name}") if not isinstance(d.T, ty.Union) else VObj(fresh_const("hglob", ty.IntS))
+                if not isinstance(d.T, ty.Union):
+                    st._typing(st.globs[(mod, name)], d.T)
+            return act_glob
         if path.startswith("contents(") and path.endswith(")"):
-            v = self.spec_value(path[9:-1], st, env, module=self._havoc_mod)
+            try:
+                v = self.spec_value(path[9:-1], st, env, module=self._havoc_mod)
+            except EngineError:
+                v = self._none_owner(path[9:-1], st, env)
             if isinstance(v, VRef) and isinstance(v.T, ty.Map):
-                st.map_havoc(v)
-                return
+                return lambda: st.map_havoc(v)
             if isinstance(v, VRef) and isinstance(v.T, ty.Lst):
-                st.lst_set(v, fresh_const("hlst", z3.SeqSort(v.T.elem.comps[0])))
-                return
+                return lambda: st.lst_set(v, fresh_const("hlst", z3.SeqSort(v.T.elem.comps[0])))
+            if isinstance(v, VNone):
+                return lambda: None          # the owner is None in this state: nothing to change
             raise EngineError(f"modifies contents of {v!r}")
         if "." in path:
             objx, field = path.rsplit(".", 1)
-            v = self.spec_value(objx, st, env, module=self._havoc_mod)
+            try:
+                v = self.spec_value(objx, st, env, module=self._havoc_mod)
+            except EngineError:
+                v = self._none_owner(objx, st, env)
+            if isinstance(v, VNone):
+                return lambda: None          # the owner is None in this state: nothing to change
             if not isinstance(v, VRef):
                 raise EngineError(f"modifies path {path}: {v!r} is not a reference")
             owner, T = self.schema.field(v.cls, field)
-            nv = fresh_value(T, f"h_{field}")
-            st._typing(nv, T)
-            st.write_field(v, field, nv)
-            return
+
+            def act_field():
+                nv = fresh_value(T, f"h_{field}")
+                st._typing(nv, T)
+                st.write_field(v, field, nv)
+            return act_field
         raise EngineError(f"modifies path {path!r}")
+
+    def _none_owner(self, objx, st, env):
+        """`a.b.c` where a prefix is None in this state: VNone (the path names nothing); anything else is an error."""
+        parts = objx.split(".")
+        for n in range(1, len(parts)):
+            try:
+                pv = self.spec_value(".".join(parts[:n]), st, env, module=self._havoc_mod)
+            except EngineError:
+                break
+            if isinstance(pv, VNone):
+                return NONE
+        raise EngineError(f"modifies path owner {objx!r} cannot be evaluated")
 
     # ------------------------------------------------------------------
     # built-in functions
